@@ -6,6 +6,7 @@ package utils
 
 import (
 	"fmt"
+	"strings"
 	"testing"
 
 	sdcpb "github.com/sdcio/sdc-protos/sdcpb"
@@ -102,4 +103,29 @@ func TestVerifReplayPathStrings(t *testing.T) {
 		}
 	}
 	fmt.Printf("REPLAY-CASES fn=%s n=%d\n", fnK, k)
+	// the element sequence of a path: the key values of an entry follow in the order of their key names, however many
+	// keys the list has and however often it is asked (the keys sit in a map)
+	fnS := "utils.sortedVals"
+	q := 0
+	for nk := 1; nk <= 5; nk++ {
+		keys := map[string]string{}
+		var want []string
+		for i := 0; i < nk; i++ {
+			// names in ascending order, values in descending order
+			keys[fmt.Sprintf("k%d", i)] = fmt.Sprintf("v%d", 9-i)
+			want = append(want, fmt.Sprintf("v%d", 9-i))
+		}
+		p := &sdcpb.Path{Elem: []*sdcpb.PathElem{{Name: "list", Key: keys}, {Name: "leaf"}}}
+		wantSeq := append(append([]string{"list"}, want...), "leaf")
+		for run := 0; run < 40; run++ {
+			q++
+			if got := ToStrings(p, false, false); strings.Join(got, " ") != strings.Join(wantSeq, " ") {
+				for _, f := range []string{fnS, "utils.ToStrings"} {
+					fmt.Printf("REPLAY-FAIL fn=%s clause=values_follow_keys input=list entry with %d keys %v (run %d) why=element sequence %v, by key name it is %v\n", f, nk, keys, run, got, wantSeq)
+				}
+				break
+			}
+		}
+	}
+	fmt.Printf("REPLAY-CASES fn=%s n=%d\n", fnS, q)
 }
